@@ -3,5 +3,6 @@
 
 pub mod dsl;
 pub mod eng;
+pub mod hist;
 pub mod memkv;
 pub mod util;
